@@ -116,6 +116,13 @@ Theorem C17_catalogue_ok :
   faithful catalogue /\ (forall u, In u catalogue -> wf (uu u)) /\ offsets_ok catalogue.
 Proof. exact (conj catalogue_faithful (conj catalogue_wf catalogue_offsets_ok)). Qed.
 
+(** Conversion commutes with masking: the cells visible under any mask carry exactly the
+    converted numbers (the correspondence judges gridded, masked payloads cell by cell). *)
+Theorem C17_convert_commutes_mask :
+  forall u v (m : list bool) (l : list Q),
+    mask_with m (map (convert u v) l) = map (option_map (convert u v)) (mask_with m l).
+Proof. exact convert_commutes_mask. Qed.
+
 (** Non-vacuity. *)
 (* a session on the catalogue with repeated / reversed pairs, a clear, a relabel, offsets, a
    refused link; memoised answers = pure answers, and they are not all trivial *)
@@ -170,3 +177,4 @@ Print Assumptions C17_equiv_not_identity_example.
 Print Assumptions C17_refuse.
 Print Assumptions C17_link_exact.
 Print Assumptions C17_catalogue_ok.
+Print Assumptions C17_convert_commutes_mask.
